@@ -608,9 +608,24 @@ class Interp:
         if isinstance(tgt, ast.Name):
             env[tgt.id] = v
         elif isinstance(tgt, (ast.Tuple, ast.List)):
-            if isinstance(v, (TupleV, ListObj)) and len(v.items) == len(tgt.elts):
+            if isinstance(v, IterV):
+                v = ListObj(v.drain())
+            starred = [i for i, t in enumerate(tgt.elts) if isinstance(t, ast.Starred)]
+            if isinstance(v, (TupleV, ListObj)) and not getattr(v, "has_prefix", False) and len(starred) == 1 \
+                    and len(v.items) >= len(tgt.elts) - 1:
+                i = starred[0]
+                n_after = len(tgt.elts) - i - 1
+                items = list(v.items)
+                for t, x in zip(tgt.elts[:i], items[:i]):
+                    self.assign(t, x, env)
+                self.assign(tgt.elts[i].value, ListObj(items[i:len(items) - n_after]), env)
+                for t, x in zip(tgt.elts[i + 1:], items[len(items) - n_after:]):
+                    self.assign(t, x, env)
+            elif isinstance(v, (TupleV, ListObj)) and len(v.items) == len(tgt.elts) and not starred:
                 for t, x in zip(tgt.elts, v.items):
                     self.assign(t, x, env)
+            elif isinstance(v, (TupleV, ListObj)) and not getattr(v, "has_prefix", False):
+                raise AbstractRaise("ValueError", tgt, detail="cannot unpack %d value(s) into %d name(s)" % (len(v.items), len(tgt.elts)))
             else:
                 raise Unsupported(tgt, "unpacking %r" % (v,))
         elif isinstance(tgt, ast.Subscript):
@@ -834,6 +849,10 @@ class Interp:
                 return Const(a.k - b.k)
             if isinstance(a, ListObj) and isinstance(b, ListObj) and sign == 1:
                 return ListObj(a.items + b.items)
+            if isinstance(a, Const) and isinstance(b, Const) and isinstance(a.v, str) and isinstance(b.v, str) and sign == 1:
+                return Const(a.v + b.v)
+            if isinstance(a, TupleV) and isinstance(b, TupleV) and sign == 1:
+                return TupleV(list(a.items) + list(b.items))
         if isinstance(a, Const) and isinstance(b, Const) and isinstance(a.v, (int, float)) and isinstance(b.v, (int, float)) \
                 and not isinstance(a.v, bool) and not isinstance(b.v, bool):
             try:
@@ -909,6 +928,8 @@ class Interp:
             return len(a.items) == len(b.items) and all(self.generic_eq(x, y, node) for x, y in zip(a.items, b.items))
         if type(a) is not type(b):
             return False
+        if getattr(a, "hashable_value", False) and getattr(b, "hashable_value", False):
+            return a == b
         raise Unsupported(node, "equality %r == %r" % (a, b))
 
     def contains(self, container, x, node):
@@ -924,6 +945,8 @@ class Interp:
             return self.dict_key(x, node) in container.entries
         if isinstance(container, SetObj):
             return any(self.generic_eq(x, y, node) for y in container.items)
+        if isinstance(container, Const) and isinstance(container.v, str) and isinstance(x, Const) and isinstance(x.v, str):
+            return x.v in container.v
         return self.w.contains(self, container, x, node)
 
     def dict_key(self, k, node):
@@ -1055,6 +1078,10 @@ class Interp:
                     for kk, vv in v.entries.items():
                         kwargs[kk.v] = vv
                     continue
+                extra = self.w.splice_kwargs(self, v, e) if hasattr(self.w, "splice_kwargs") else None
+                if extra is not None:
+                    kwargs.update(extra)
+                    continue
                 raise Unsupported(e, "** of %r" % (v,))
             kwargs[k.arg] = v
         if isinstance(f, Builtin):
@@ -1106,7 +1133,7 @@ class Interp:
                     d.default_factory = {"set": SetObj, "list": lambda: ListObj([]), "dict": DictObj, "int": lambda: Const(0),
                                          "float": lambda: Const(0.0)}[fac.name]
                 elif isinstance(fac, LambdaV):
-                    d.default_factory = lambda fac=fac, e=e: self.call_value(fac, [], e)
+                    d.default_factory = lambda fac=fac, e=e: self.apply_value(fac, [], e)
                 else:
                     raise Unsupported(e, "defaultdict factory %r" % (fac,))
             return d
@@ -1116,7 +1143,7 @@ class Interp:
                 isinstance(a, Const) and isinstance(a.v, int) for a in args):
             return ItemGetterV([a.v for a in args])
         if isinstance(f, ItemGetterV) and len(args) == 1 and not kwargs:
-            return self.call_value(f, args, e)
+            return self.apply_value(f, args, e)
         if isinstance(f, Opaque) and f.tag.startswith("module:itertools."):
             r = self.call_itertools(f.tag.split(".", 1)[1], args, kwargs, e)
             if r is not None:
@@ -1259,18 +1286,27 @@ class Interp:
             if seq is not None:
                 vals = [self.truth(x, node) for x in seq]
                 return Const(any(vals) if name == "any" else all(vals))
-        if name in ("max", "min") and len(args) == 1 and not kwargs:
-            seq = _concrete_seq(args[0])
-            if seq is not None and seq and all(isinstance(x, Const) and isinstance(x.v, (int, float)) for x in seq):
-                return Const(max(x.v for x in seq) if name == "max" else min(x.v for x in seq))
+        if name in ("max", "min") and args and set(kwargs) <= {"key", "default"}:
+            seq = _concrete_seq(args[0]) if len(args) == 1 else list(args)
             if seq is not None and not seq:
+                if "default" in kwargs:
+                    return kwargs["default"]
                 raise AbstractRaise("ValueError", node, detail="%s() of an empty sequence" % name)
-            if seq is not None and all(isinstance(x, Int) for x in seq):
-                best = seq[0]
-                for x in seq[1:]:
-                    if self.cmp_int(x, best, ">" if name == "max" else "<", node):
-                        best = x
-                return best
+            if seq is not None:
+                keyf = kwargs.get("key")
+                keys = [self.apply_value(keyf, [x], node) for x in seq] if keyf is not None and not (
+                    isinstance(keyf, Const) and keyf.v is None) else list(seq)
+                best = 0
+                ok = True
+                for i in range(1, len(seq)):
+                    c = self._order(keys[i], keys[best], node)
+                    if c is None:
+                        ok = False
+                        break
+                    if (c > 0 and name == "max") or (c < 0 and name == "min"):
+                        best = i
+                if ok:
+                    return seq[best]
         if name == "sorted" and len(args) == 1 and set(kwargs) <= {"reverse", "key"}:
             seq = _concrete_seq(args[0])
             if seq is not None:
@@ -1364,7 +1400,7 @@ class Interp:
             return None
         keyf = kwargs.get("key")
         if keyf is not None and not (isinstance(keyf, Const) and keyf.v is None):
-            keys = [self.call_value(keyf, [x], node) for x in seq]
+            keys = [self.apply_value(keyf, [x], node) for x in seq]
         else:
             keys = list(seq)
         unknown = []
@@ -1380,7 +1416,7 @@ class Interp:
             return None
         return [seq[i] for i in idx]
 
-    def call_value(self, f, args, node):
+    def apply_value(self, f, args, node):
         """Call an abstract callable on already evaluated arguments."""
         if isinstance(f, LambdaV):
             a = f.node.args
